@@ -58,38 +58,68 @@ def reference(frm: str, to: str) -> list:
 ANGLE_SLOTS = {"CARTESIAN": (), "CYLINDRICAL": (1, ), "SPHERICAL": (1, 2)}
 
 
+class _CS:
+    """`self` of a CoordinateSystem of a given kind"""
+
+    def __init__(self, kind: str):
+        self.kind = kind
+
+
+class TableReader(PyReader):
+    """evaluates CoordinateSystem.transformation_to_system (and whatever private helpers / tables it uses) with the base scalars q0, q1, q2"""
+
+    def hook_attr(self, base, attr, n):
+        if isinstance(base, _CS):
+            if attr in ("_coord_system_type", "coord_system_type"):
+                return ("kind", base.kind)
+            if attr == "System":
+                return ("system-enum", )
+            if attr in ("_coord_system", "coord_system"):
+                return ("coordsys3d", base.kind)
+            if attr in self.functions:
+                return ("bound", attr, base)
+        if base == ("system-enum", ) and attr in SYSTEMS:
+            return ("kind", attr)
+        return NotImplemented
+
+    def hook_method(self, base, attr, args, kwargs, n):
+        if isinstance(base, tuple) and base and base[0] == "coordsys3d" and attr == "base_scalars" and not args:
+            return [q(0), q(1), q(2)]
+        return NotImplemented
+
+    def hook_call(self, n, env, fns):
+        f = dotted(n.func) or ""
+        if f.split(".")[-1] in ("atan2", "acos", "asin", "atan") and not n.keywords:
+            return op(f.split(".")[-1], *[self.scalar(self.ev(a, env, fns), n) for a in n.args])
+        return NotImplemented
+
+
 def read_tables(run: Run):
+    """the transformation answered for every (own kind, target kind), obtained by evaluating transformation_to_system: `tables` holds the triples,
+    `refused` the pairs that raise, `nothing` the pairs for which the function returns without a value"""
     mod = run.src.need(CS)
     cls = next((s for s in mod.tree.body if isinstance(s, ast.ClassDef) and s.name == "CoordinateSystem"), None)
     run.require(cls is not None, "class CoordinateSystem not found")
     fn = next((s for s in cls.body if isinstance(s, ast.FunctionDef) and s.name == "transformation_to_system"), None)
     run.require(fn is not None, "transformation_to_system not found")
-    tables = {}
-    nodes = {}
-    for s in fn.body:
-        if not (isinstance(s, ast.If) and isinstance(s.test, ast.Compare) and isinstance(s.test.ops[0], ast.Eq)):
-            continue
-        l, r = dotted(s.test.left) or "", dotted(s.test.comparators[0]) or ""
-        frm = next((x.split(".")[-1] for x in (l, r) if x.split(".")[-1] in SYSTEMS and "System" in x), None)
-        if frm is None or not any(x.endswith("_coord_system_type") for x in (l, r)):
-            continue
-        rd = ExprReader({}, None, where=f"transformation_to_system[{frm}]")
-        for st in s.body:
-            if isinstance(st, ast.Assign) and isinstance(st.targets[0], ast.Tuple) and isinstance(st.value, ast.Call) and isinstance(st.value.func, ast.Attribute) \
-                    and st.value.func.attr == "base_scalars" and len(st.targets[0].elts) == 3:
-                for i, e in enumerate(st.targets[0].elts):
-                    rd.env[e.id] = q(i)
-            elif isinstance(st, ast.Assign) and isinstance(st.value, ast.Dict):
-                for k, v in zip(st.value.keys, st.value.values):
-                    to = (dotted(k) or "").split(".")[-1]
-                    if to not in SYSTEMS:
-                        raise AnalysisError(f"C11: table key `{norm(k)}` not understood")
-                    val = rd.ev(v)
-                    if not (isinstance(val, list) and len(val) == 3):
-                        raise AnalysisError(f"C11: entry {frm}->{to} is not a triple")
-                    tables[(frm, to)] = val
-                    nodes[(frm, to)] = v
-    return mod, fn, tables, nodes
+    mm = _methods_module(mod, "CoordinateSystem")
+    tables, outcome = {}, {}
+    for frm in SYSTEMS:
+        for to in SYSTEMS:
+            R = TableReader(mm, f"transformation_to_system[{frm}->{to}]")
+            try:
+                got = R.call("transformation_to_system", [_CS(frm), ("kind", to)])
+            except Raised as r:
+                outcome[(frm, to)] = ("raises", r.exc)
+                continue
+            if got is None:
+                outcome[(frm, to)] = ("none", None)
+                continue
+            if not (isinstance(got, list) and len(got) == 3 and all(isinstance(x, (T, int)) for x in got)):
+                raise AnalysisError(f"C11: transformation_to_system {frm}->{to} evaluates to {got!r}, not a triple")
+            tables[(frm, to)] = [x if isinstance(x, T) else num(x) for x in got]
+            outcome[(frm, to)] = ("triple", None)
+    return mod, fn, tables, outcome
 
 
 def same_entry(a: T, b: T, angle: bool) -> bool:
@@ -110,7 +140,7 @@ def check(run: Run) -> None:
         ("T8", "... simultaneously: coordinates that mention the system's own base scalars (trajectories such as [y, x + 5]) are not substituted again"),
     ]:
         run.rule(rid, text)
-    mod, fn, tables, nodes = read_tables(run)
+    mod, fn, tables, outcome = read_tables(run)
     want_pairs = [("CYLINDRICAL", "CARTESIAN"), ("SPHERICAL", "CARTESIAN"), ("CARTESIAN", "CYLINDRICAL"), ("CARTESIAN", "SPHERICAL"),
                   ("CARTESIAN", "CARTESIAN"), ("CYLINDRICAL", "CYLINDRICAL"), ("SPHERICAL", "SPHERICAL")]
     for frm, to in want_pairs:
@@ -122,8 +152,8 @@ def check(run: Run) -> None:
         for i in range(3):
             run.ob("T1", f"{frm}->{to}[{i}]")
             if not same_entry(tables[(frm, to)][i], ref[i], i in ANGLE_SLOTS[to]):
-                run.violate("T1", f"{CS}:table:{frm}->{to}[{i}]", mod, nodes[(frm, to)],
-                            f"component {i} of the {frm.lower()} -> {to.lower()} transformation is `{norm(nodes[(frm, to)].elts[i] if isinstance(nodes[(frm, to)], ast.Tuple) else nodes[(frm, to)], 60)}`, "
+                run.violate("T1", f"{CS}:table:{frm}->{to}[{i}]", mod, fn,
+                            f"component {i} of the {frm.lower()} -> {to.lower()} transformation is `{tables[(frm, to)][i]!r}`, "
                             f"which differs from the convention {ref[i]!r}")
         run.sample({"transformation": f"{frm}->{to}", "entries": [repr(x) for x in tables[(frm, to)]]})
     for cur in ("CYLINDRICAL", "SPHERICAL"):
@@ -134,21 +164,15 @@ def check(run: Run) -> None:
                 run.ob("T1", f"roundtrip:CARTESIAN->{cur}->CARTESIAN[{i}]")
                 if not same(normalize(comp[i]), normalize(q(i))):
                     run.violate("T1", f"{CS}:roundtrip:{cur}[{i}]", mod, fn, f"Cartesian -> {cur.lower()} -> Cartesian does not return coordinate {i}: {normalize(comp[i])!r}")
-    # ---- T3
-    run.ob("T3", "no-direct-table")
+    # ---- T3 (by evaluation: what the function does for the two unsupported pairs)
     for pair in (("CYLINDRICAL", "SPHERICAL"), ("SPHERICAL", "CYLINDRICAL")):
-        if pair in tables:
-            run.violate("T3", f"{CS}:table:{pair[0]}->{pair[1]}:present", mod, nodes[pair], f"a direct {pair[0].lower()} -> {pair[1].lower()} transformation is answered; the property requires it to be refused")
-    run.ob("T3", "fall-through-raises")
-    last = fn.body[-1]
-    if not (isinstance(last, ast.Raise) and isinstance(last.exc, ast.Call) and dotted(last.exc.func) == "ValueError"):
-        run.violate("T3", f"{CS}:transformation_to_system:fall-through", mod, fn, "unsupported transformations no longer fall through to `raise ValueError`")
-    for s in fn.body:
-        if isinstance(s, ast.If):
-            for r in [x for x in ast.walk(s) if isinstance(x, ast.Return)]:
-                conds = conditions_for(fn, r) or []
-                if not any(not isinstance(t, str) and isinstance(t, ast.Compare) and isinstance(t.ops[0], ast.IsNot) and isinstance(t.comparators[0], ast.Constant) and t.comparators[0].value is None for t, p in conds):
-                    run.violate("T3", f"{CS}:transformation_to_system:returns-none", mod, r, "a table miss can be returned (as None) instead of falling through to the refusal")
+        run.ob("T3", f"refused:{pair[0]}->{pair[1]}")
+        kind_, _ = outcome[pair]
+        if kind_ == "triple":
+            run.violate("T3", f"{CS}:table:{pair[0]}->{pair[1]}:present", mod, fn, f"a direct {pair[0].lower()} -> {pair[1].lower()} transformation is answered; the property requires it to be refused")
+        elif kind_ == "none":
+            run.violate("T3", f"{CS}:transformation_to_system:returns-none", mod, fn,
+                        f"{pair[0].lower()} -> {pair[1].lower()}: a table miss is returned (as None) instead of falling through to the refusal")
     # ---- T2
     amod = run.src.need(AR)
     R = PyReader(amod.tree, where="arithmetics.py")
